@@ -212,10 +212,10 @@ FACETS = [
           rule="per configuration (AES-128/192/256, DES, TDEA in its 6 key-passing forms, Serpent, Threefish-256/512/1024): every single-bit "
                "block, every single-bit key, every single-bit tweak, all-zero/all-one combinations; Serpent with every key length 1..256 bits "
                "and 1..32 bytes; DES weak/semi-weak keys and their parity variants"),
-    Facet("random-blocks", check_block, strategy=block_strategy, budget={"quick": 2500, "thorough": 100000},
+    Facet("random-blocks", check_block, strategy=block_strategy, budget={"quick": 5000, "thorough": 100000},
           shards={"quick": 16, "thorough": 32}, nontrivial=nontriv_block, classify=classify_block,
           rule="random configuration (keys random / weak / zero-one words), random-constant-single-bit blocks, enc, dec or both"),
-    Facet("call-histories", check_history, strategy=history_strategy, budget={"quick": 800, "thorough": 30000},
+    Facet("call-histories", check_history, strategy=history_strategy, budget={"quick": 1600, "thorough": 30000},
           shards={"quick": 16, "thorough": 32}, nontrivial=lambda c: len(c["calls"]) >= 2,
           classify=lambda c: (CI.label(c), "".join(d[0] for d, _ in c["calls"])[:3]),
           rule="2..6 enc/dec calls with different blocks on ONE object, each compared with the reference (cached key schedules, stale state)"),
